@@ -1,0 +1,49 @@
+//go:build verif
+
+package server
+
+import (
+	"bufio"
+	"encoding/json"
+	"os"
+	"sync"
+)
+
+// Event trace for the external verification harness: one JSON line per event, written when the
+// environment variable VERIF_TRACE names a file. Events are emitted at linearization points (under the
+// lock that protects the state they describe, where the code holds one) and numbered by one counter.
+var (
+	verifTraceMu   sync.Mutex
+	verifTraceOnce sync.Once
+	verifTraceW    *bufio.Writer
+	verifTraceSeq  int64
+	verifTraceIDs  = map[any]int{}
+)
+
+func verifEmit(inst any, ev string, kv ...any) {
+	verifTraceOnce.Do(func() {
+		if p := os.Getenv("VERIF_TRACE"); p != "" {
+			if f, err := os.OpenFile(p, os.O_CREATE|os.O_WRONLY|os.O_APPEND, 0o644); err == nil {
+				verifTraceW = bufio.NewWriter(f)
+			}
+		}
+	})
+	if verifTraceW == nil {
+		return
+	}
+	verifTraceMu.Lock()
+	defer verifTraceMu.Unlock()
+	id, ok := verifTraceIDs[inst]
+	if !ok {
+		id = len(verifTraceIDs) + 1
+		verifTraceIDs[inst] = id
+	}
+	verifTraceSeq++
+	m := map[string]any{"i": id, "seq": verifTraceSeq, "ev": ev}
+	for k := 0; k+1 < len(kv); k += 2 {
+		m[kv[k].(string)] = kv[k+1]
+	}
+	b, _ := json.Marshal(m)
+	_, _ = verifTraceW.Write(append(b, '\n'))
+	_ = verifTraceW.Flush()
+}
